@@ -17,7 +17,7 @@
  * that kind goes through them */
 static unsigned lp_toggle, lp_wrapped;
 #define LP(fn, k, ...) \
-    (((k) == LENP_VARIABLE && (lp_toggle++ & 1u)) ? (lp_wrapped++, lenp_##fn(__VA_ARGS__)) : flenp_##fn((k), __VA_ARGS__))
+    (((k) == LENP_VARIABLE && ((lp_toggle++ + vh_unit_salt) & 1u)) ? (lp_wrapped++, lenp_##fn(__VA_ARGS__)) : flenp_##fn((k), __VA_ARGS__))
 
 const char *harness_name = "c13_lenp";
 
